@@ -9,9 +9,12 @@ zz_verif_c12.go:
          slot absent, else 1 + initarg(0 none,1 own,2 shared :k) + 3 * has-initform
   redef  -1 none, else r + n*(supers + cnt(r)*(slots + 49*rq)): class r is redefined
          with new supers/slots, evaluated after the original form at position
-         max(pos(r), n-1-rq) of the order
+         max(pos(r), n-1-rq) of the order; ghost (next digit, base 3; encoded as rq + n*ghost):
+         the ORIGINAL definition of r also names a superclass that is never defined, written
+         last (1) or first (2), so r and every class inheriting it wait until the redefinition
   opts   bit 0: every slot gets :reader/:writer/:accessor; bits 1..n: classes that
-         get a method of the generic function who
+         get a method of the generic function who; bits n+1..2n: classes that get a
+         :before method of who pushing the class name on a trace
 Sampling is pseudo-random with a fixed seed (deterministic lists); all DAG shapes
 of n <= 3 (quick) and n <= 4 (thorough) occur.
 """
@@ -50,7 +53,42 @@ def redef(rnd, n):
     return r + n * (sup + cnt(n, r) * (classcode(rnd) + 49 * rq))
 
 def mask(rnd, n):
-    return rnd.randrange(1 << n) << 1
+    m = rnd.randrange(1 << n) << 1
+    if rnd.random() < 0.5:
+        m |= rnd.randrange(1 << n) << (1 + n)
+    return m
+
+def digit(n, shape, i):
+    for k in range(i):
+        shape //= cnt(n, k)
+    return shape % cnt(n, i)
+
+def ghost_case(rnd, n, shape, r, rq, g):
+    """r is first defined with an additional never defined superclass and later redefined
+    with the same (defined) superclasses and fresh slot options"""
+    rd = r + n * (digit(n, shape, r) + cnt(n, r) * (classcode(rnd) + 49 * (rq + n * g)))
+    full = ((1 << n) - 1)
+    return [n, shape, prof(rnd, n), rd, (full << 1) | (full << (1 + n))]
+
+def ghost_cases(rnd, thorough):
+    out = []
+    for rq in (0, 1):
+        for g in (1, 2):
+            out.append(ghost_case(rnd, 2, 1, 1, rq, g))
+    k = 0
+    for shape, r in ((6, 2), (7, 2), (8, 2), (6, 1)):
+        for rq in (0, 2):
+            k += 1
+            out.append(ghost_case(rnd, 3, shape, r, rq, 1 + k % 2))
+    if thorough:
+        for shape in range(nshapes(3)):
+            for r in (1, 2):
+                for rq in (0, 1, 2):
+                    for g in (1, 2):
+                        out.append(ghost_case(rnd, 3, shape, r, rq, g))
+        for shape in pick(rnd, 4, 40):
+            out.append(ghost_case(rnd, 4, shape, 1 + rnd.randrange(3), rnd.randrange(4), 1 + rnd.randrange(2)))
+    return out
 
 def order_cases(rnd, plan):
     out = []
@@ -89,6 +127,17 @@ redef_t = redef_q + redef_cases(rnd, [(2, 12, None), (3, 50, None), (4, 2, None)
 access_q = access_cases(rnd, [(2, 2), (3, 4)])
 access_t = access_q + access_cases(rnd, [(2, 10), (3, 50), (4, 10)])
 
+# quick must contain the diamond c0 (c1 c2), c1 (c3), c2 (c3) (shape 74) and c0 (c1 c2), c1 (c2 c3),
+# c2 (c3) (shape 84): a shared ancestor appears once, its :before method runs once
+full4 = (15 << 1) | (15 << 5)
+for lst in (order_q, order_t):
+    lst.insert(0, [4, 84, prof(random.Random(84), 4), -1, full4])
+    lst.insert(0, [4, 74, prof(random.Random(74), 4), -1, full4])
+gq = ghost_cases(random.Random(12112), False)
+gt = ghost_cases(random.Random(12112), True)
+redef_q += gq
+redef_t += gt
+
 # a hand-written family with every feature, kept first in the lists:
 # c0 (c1 c2): sa own+form ; c1 (c2): sa shared+form, sb shared ; c2: sa form, sb own+form
 hand = [3, 8, 5 + 49 * 27 + 49 * 49 * 39, -1, 0b1010]
@@ -120,7 +169,9 @@ common = ("Written model in the harness: n classes, class i may name <= 2 direct
           "undeclared slot -> condition; undeclared initarg -> condition. Checked for EVERY class of the family: class-precedence (also after every "
           "prefix of the history for each class that is complete at that point; a class with a still undefined superclass must refuse make-instance with a condition), one instance per subset of {:ka,:kb,:k} (8 subsets, undeclared "
           "initargs one at a time) with both slots' boundness and value, (setf slot-value) with a symbolic value changing that slot of that instance only (the first instance is re-read after all the others were made), typep against every class + standard-object + t, class-of/find-class, and "
-          "dispatch of a generic function with methods on a sampled subset of the classes (most specific applicable method, or no-applicable-method). "
+          "dispatch of a generic function with methods on a sampled subset of the classes (most specific applicable method, or no-applicable-method; "
+          ":before methods on a sampled subset push the class name on a trace: each class of the precedence list with one runs it exactly once, most specific first; a call with applicable :before methods but no applicable "
+          "primary is C10's known finding C10-no-primary-runs-daemons and only required not to fault). "
           "Expected conditions are provoked with concrete values only (slip prints the form in the report; printing a symbolic integer forks per digit). "
           "Two supplied initargs naming the same slot: slip signals an explicit error where CLHS 7.1.4 takes the leftmost; outside C12, only 'value or "
           "condition, no Go fault' is required there. Engine model: (*StandardObject).ID (address of the object, used only when printing) returns a "
@@ -133,7 +184,7 @@ spec = [
     {"id": "C12.order", "property": "C12", "pkg": "pkg/clos", "entry": "VerifC12Order",
      "cases": {"quick": order_q, "thorough": order_t}, "reach": ["defined", "checked"],
      "max_depth": 400, "max_steps": 200000000, "solver_timeout_ms": 10000, "overrides": OVR, "carves": [C1],
-     "note": common + "This obligation: no redefinition. Bounds: quick n<=3 all 1+2+10 shapes x 2-3 profiles, 2 shapes of n=4; thorough adds 50 "
+     "note": common + "This obligation: no redefinition. The quick tier contains the 4-class diamond and a second 4-class shape with shared ancestors (methods and :before methods on all classes). Bounds: quick n<=3 all 1+2+10 shapes x 2-3 profiles, 2 shapes of n=4; thorough adds 50 "
              "profiles per n=3 shape, 3 profiles for each of the 100 n=4 shapes, 6 shapes of n=5 (120 orders each)."},
     {"id": "C12.redef", "property": "C12", "pkg": "pkg/clos", "entry": "VerifC12Order",
      "cases": {"quick": redef_q, "thorough": redef_t}, "reach": ["defined", "checked"],
@@ -143,7 +194,7 @@ spec = [
              "in force. Regions carved (per class, computed from the history): finding 2 = r was complete when redefined and the class reaches r "
              "through another class (slip re-merges in Go map order; natively the probe repeats the history with 12 fresh name sets because the defect "
              "is nondeterministic); finding 3 = the new r was not complete when redefined and the class was a complete subclass of r (or inherits such "
-             "a class). Everything else, including r itself and its direct subclasses, is checked. Bounds: quick n<=3 (all shapes x 2-3 samples) + 1 "
+             "a class). Everything else, including r itself and its direct subclasses, is checked. Ghost family: r is first defined with an additional superclass name that is never defined (so r and every class naming it, defined before or after it, wait: make-instance must signal) and is then redefined without it; afterwards every class must be complete exactly as in dependency order (quick: 1 and 2 waiting classes, n=2,3, 12 cases x all orders; thorough: all n=3 shapes x r x position x ghost first/last, 40 n=4 shapes). Bounds: quick n<=3 (all shapes x 2-3 samples) + 1 "
              "case n=4; thorough 50 samples per n=3 shape, 2 per n=4 shape."},
     {"id": "C12.access", "property": "C12", "pkg": "pkg/clos", "entry": "VerifC12Order",
      "cases": {"quick": access_q, "thorough": access_t}, "reach": ["defined", "checked"],
